@@ -147,6 +147,19 @@ CLAIMED = {
         'note': TB + ' Does not decide equality of node counts as such, nor state outside these classes (static-storage writers are listed for review).',
         'technique': 'custom static analysis: effect (write-set) analysis with must-write on all CFG paths, reset-value agreement, must-call chains',
     },
+    'C17': {
+        'text': 'Clause-limited static decision (level "other"): (1) reader and writer tables agree - FEN piece letters, FEN castling letters, '
+                'piece letters of SAN, promotion letters of both UCI move writers against uciStringToMove - by constant evaluation of the '
+                'switch tables over all pieces; (2) every getSquare call site passes a 2-character substring under a dominating length test; '
+                '(3) every engine-side writer of the half-move clock passes a value known to be >= 0 and the readers index the key table '
+                'inside its extent (the negative-clock FEN defect was found by this rule); (4) the parser entry points can only raise '
+                'ChessError-family exceptions and the UCI handler lets nothing escape; (5) pawn-direction square offsets are colour-decided '
+                'and mirrored. Right level: "never a crash or memory error for arbitrary bytes" needs the bounds and exception obligations '
+                'for every input; agreement of tables is the structural core of every round trip.',
+        'design_ref': 'DESIGN.md section 2, C17',
+        'note': TB + ' Does not decide uniqueness of short forms, value-level round trips, or robustness of every byte string.',
+        'technique': 'custom static analysis: constant evaluation of switch tables (inverse agreement), guard-derived length bounds, range provenance of external integers, exception-flow, colour-coherence of direction offsets',
+    },
     'C18': {
         'text': 'Clause-limited static decision (level "other"): (1) Book::getBookMove: the result is cleared first, every candidate is '
                 'validated against the generated legal-move list with a per-candidate flag, a failed test ends the probe with no move, the '
